@@ -181,6 +181,8 @@ CONFIGS = {
               ([17, 5, 9], [8, (8, 8, 64)]), ([33, 3, 12], [16, (16, 16, 8)])],
     "segy": [([4, 5, 9], [4, (4, 4, 512)]), ([9, 5, 9], [4, (4, 4, 512)]), ([5, 9, 70], [8, (8, 8, 64)]),
              ([12, 3, 5], [4, (4, 4, 512)]),
+             # more plane sets (19) than the largest queue holds (16)
+             ([74, 3, 5], [4, (4, 4, 512)]),
              # one block per plane set (n_xl <= blockshape[1], n_samples <= blockshape[2]) in layouts other than 4x4
              ([17, 5, 9], [8, (8, 8, 64)]), ([9, 7, 60], [4, (4, 8, 256)]), ([33, 3, 12], [16, (16, 16, 8)])],
     "irregular": [([9, 5, 9], [4, (4, 4, 512)]), ([17, 5, 9], [8, (8, 8, 64)]), ([6, 7, 30], [16, (4, 8, 64)])],
